@@ -307,6 +307,9 @@ func TestReplay(t *testing.T) {
 	if !ok {
 		t.Fatalf("no replayer for %s/%s", rf.Property, rf.Sub)
 	}
+	if rf.Property == "C17" {
+		enableCustomInputFormat() // as the C17 check's own process does
+	}
 	o := fn(rf.Case)
 	stats.record(rf.Sub, rf.Case, o)
 	if o.Viol != nil {
